@@ -110,6 +110,12 @@ def run(E: Engine, rep: Report, tier: str) -> dict:
     # channel idles (and is edge-padded), so adding it whole gives a pulse of ANOTHER channel on the same basis the sum
     # of both phases.  Every phase statement adds `cs.phase * <mask>` with a mask filled, slot by slot, from cs.amp.
     mask_fills = [l for l in St.logged("store") if l.target is not None and l.target[0] == "idx" and l.target[1][0] == "obj" and mentions(l.value, "amp") and mentions(l.target[2], "ti", "tf")]
+    # ... decided slot by slot: the window of the amplitude that is tested is the window of the mask that is filled
+    #     (`amp[: s.tf]` asks "did the channel play anything so far", which lets a later silent pulse add its held phase)
+    for f_ in mask_fills:
+        win = [t[2] for t in sym.subterms(f_.value) if t[0] == "idx" and t[2][0] == "slice"]
+        if win:
+            rep.check(f_.target[2] in win, "SIB", "to_nested_dict|phase-mask-tests-the-slot's-own-window", "mask[s.ti:s.tf] = any(amp[s.ti:s.tf] != 0)", f"the phase mask of the slot `{sh(f_.target[2], 40)}` is decided on the amplitude window `{sh(win[0], 40)}`: a zero-amplitude pulse that follows a real one (holding a phase reference) then counts as playing, and its phase is added to the pulses of the other channels of the basis", E.where(tnd, f_.node))
     n_ph = 0
     for l, p in accs:
         if p[1] != "phase":
